@@ -46,7 +46,10 @@ def _cases(draw):
         gaps.append({"agent": draw(st.sampled_from(list(TGT) + [SEN[0]])), "step": draw(st.integers(1, n))})
     return {"start": iso(t0), "dt": draw(st.sampled_from([30, 60, 300, 225, 675])), "n": n, "extras": draw(st.integers(0, 5)), "gaps": gaps,
             "missing_agent": draw(st.sampled_from([None, None, None, TGT[1]])), "sensors_imported": draw(st.booleans()),
-            "obs_imported": draw(st.booleans())}
+            "obs_imported": draw(st.booleans()),
+            # the importing scenario may split the same agents over two tasking engines (each sensor/target pair of the source
+            # run stays inside one engine)
+            "two_engines": draw(st.sampled_from([False, False, True]))}
 
 
 def _agents(t0):
@@ -86,7 +89,9 @@ def importer(c, rec):
         imp = os.path.join(tmp, "importer.sqlite3")
         tgts, sens = _agents(t0)
         # ---- phase A: a previous realtime run produces the importer database ----------------------------
-        cfg_a = kit.scenario_config(t0, t0 + timedelta(seconds=(n + 1) * dt), dt, [kit.engine(1, sens, tgts)], seq_filter={"alpha": 0.5})
+        # (with two engines both runs use the same split, so that every stored observation's sensor and target share an engine)
+        engines = [kit.engine(1, sens, tgts)] if not c.get("two_engines") else [kit.engine(1, sens[:1], tgts[:1]), kit.engine(2, sens[1:], tgts[1:])]
+        cfg_a = kit.scenario_config(t0, t0 + timedelta(seconds=(n + 1) * dt), dt, engines, seq_filter={"alpha": 0.5})
         try:
             sc = kit.build(cfg_a, db_file=src)
             sc.propagateTo(datetimeToJulianDate(t0 + timedelta(seconds=n * dt)))
@@ -134,8 +139,10 @@ def importer(c, rec):
         rec.label("gap" if has_gap else "complete")
         rec.label(f"extras:{min(c['extras'], 1)}")
         # ---- phase B: the importing scenario ---------------------------------------------------------------
+        engines_b = engines
+        rec.label("importing_engines:%d" % len(engines_b))
         cfg_b = kit.scenario_config(
-            t0, t0 + timedelta(seconds=(n + 1) * dt), dt, [kit.engine(1, sens, tgts)], seq_filter={"alpha": 0.5},
+            t0, t0 + timedelta(seconds=(n + 1) * dt), dt, engines_b, seq_filter={"alpha": 0.5},
             propagation={"target_realtime_propagation": False, "sensor_realtime_propagation": not c["sensors_imported"]},
             observation={"realtime_observation": not c["obs_imported"], "background": True})
         fed = {}
